@@ -172,7 +172,8 @@ def helper_targets(lk):
 
 
 def block_interface(lk):
-    """{documented block class: (name table built at construction, str() works for int / float / numpy-typed arguments)}, observed on
+    """{documented block class: (name table built at construction, str() works for int / float / numpy-typed arguments and for a complex
+    value where an argument is documented as "float or complex")}, observed on
     one instance per argument typing (arguments in the middle of their documented range, integer-valued where the typing needs it)"""
     import numpy as np
     from props import c09
@@ -182,7 +183,7 @@ def block_interface(lk):
         if ":" in name:
             continue
         table_ok, str_ok = True, True
-        for typ in (float, int, np.float64, np.int64):
+        for typ in (float, int, np.float64, np.int64, complex):
             a = {}
             for k, (lo, hi) in spec["args"].items():
                 if k == "fixed":
@@ -193,7 +194,10 @@ def block_interface(lk):
                     v = lo + 0.37 * (hi - lo)
                     if typ in (int, np.int64):
                         v = float(min(max(round(v), np.ceil(lo)), np.floor(hi)))
-                    a[k] = typ(v) if k in c09.INT_OK else float(v)
+                    if typ is complex:
+                        a[k] = complex(v, 0.002) if k in getattr(c09, "COMPLEX_OK", ()) else float(v)
+                    else:
+                        a[k] = typ(v) if k in c09.INT_OK else float(v)
             try:
                 m = spec["make"](a)
             except Exception:
